@@ -1,6 +1,7 @@
 (* Correspondence checker for C20.  A case is one of
      CParse : one line through the real ParseLine           -> the projected item
-     CFile  : lines through the real ParseByLine and Check  -> items, number of errors, err != nil
+     CText  : the bytes of a play file through the real LoadFile / ParseByLine and Check
+                                        -> items, number of errors, err != nil, "line too long"
      CFilter: commands and lines through the real FilterLines goroutine -> the lines it let through
    together with the oracle tables the harness recorded from time.ParseDuration, regexp.Compile,
    strconv.Atoi and Regexp.MatchString for exactly the operands of that case.  A case passes when
@@ -47,25 +48,34 @@ Definition item_eqb (a b : item) : bool :=
   | _, _ => false
   end.
 
+(* long texts are written run-length encoded: literal bytes, or n copies of one byte *)
+Inductive chunk := Lit (bs : list N) | Rep (n : N) (b : N).
+Definition chunk_str (c : chunk) : string :=
+  match c with Lit bs => str bs | Rep n b => N.iter n (String (ascii_of_N b)) "" end.
+Fixpoint text_of (cs : list chunk) : string :=
+  match cs with [] => "" | c :: r => chunk_str c ++ text_of r end.
+
 Inductive case :=
 | CParse (durs : tab (option Z)) (res : tab bool) (ints : tab (option Z)) (l : string) (obs : item)
-| CFile (durs : tab (option Z)) (res : tab bool) (ints : tab (option Z)) (ls : list string)
-        (obs : list item) (nerr : N) (failed : bool)
+| CText (durs : tab (option Z)) (res : tab bool) (ints : tab (option Z)) (text : list chunk)
+        (obs : list item) (nerr : N) (failed : bool) (too_long : bool)
 | CFilter (mt : tab (list string)) (evs : list fev) (obs : list string).
 
 Definition case_ok (c : case) : bool :=
   match c with
   | CParse durs res ints l obs =>
       item_eqb (parse_line (dur_tab durs) (re_tab res) (int_tab ints) l) obs
-  | CFile durs res ints ls obs nerr failed =>
-      let its := parse_file (dur_tab durs) (re_tab res) (int_tab ints) ls in
+  | CText durs res ints text obs nerr failed too_long =>
+      let (its, tl) := load_text (dur_tab durs) (re_tab res) (int_tab ints) (text_of text) in
       list_eqb item_eqb its obs && (check_count its =? nerr)%N && Bool.eqb (check_fails its) failed
+      && Bool.eqb tl too_long
   | CFilter mt evs obs =>
       list_eqb String.eqb (frun (match_tab mt) fnew evs) obs
   end.
 
 (* non-trivial: a parse case whose line the model does NOT simply send verbatim (it is read as a
-   comment or a command, valid or not); a file with both an error and a non-error item; a filter
+   comment or a command, valid or not); a file with both an error and a non-error item, or one
+   that the scanner refuses; a filter
    history in which the model blocks at least one line and passes at least one *)
 Definition lines_of (evs : list fev) : list string :=
   flat_map (fun e => match e with Line s => [s] | Act _ => [] end) evs.
@@ -74,9 +84,9 @@ Definition case_nontrivial (c : case) : bool :=
   match c with
   | CParse durs res ints l _ =>
       negb (item_eqb (parse_line (dur_tab durs) (re_tab res) (int_tab ints) l) (ISend l 0 "" 0 0))
-  | CFile durs res ints ls _ _ _ =>
-      let its := parse_file (dur_tab durs) (re_tab res) (int_tab ints) ls in
-      existsb is_error its && existsb (fun i => negb (is_error i)) its
+  | CText durs res ints text _ _ _ _ =>
+      let (its, tl) := load_text (dur_tab durs) (re_tab res) (int_tab ints) (text_of text) in
+      tl || (existsb is_error its && existsb (fun i => negb (is_error i)) its)
   | CFilter mt evs _ =>
       let out := frun (match_tab mt) fnew evs in
       negb (is_nil out) && (List.length out <? List.length (lines_of evs))%nat
